@@ -250,11 +250,12 @@ def run(res: Results, idx: Index, tier: str) -> None:
     for inst in sub.instances:
         if inst.rule == "R-C19e":
             res.add("R-C10d", inst.status, inst.site, f"R-C19e::{inst.key}", f"[C19 R-C19e] {inst.detail}", inst.func)
-    from .c10_batch import run_batch_rules, run_forwarded_rule_params, run_generic_batchers, run_param_fallbacks
+    from .c10_batch import run_batch_rules, run_forwarded_param_domains, run_forwarded_rule_params, run_generic_batchers, run_param_fallbacks
     run_batch_rules(res, idx, tier)
     run_generic_batchers(res, idx, tier)
     run_param_fallbacks(res, idx)
     run_forwarded_rule_params(res, idx)
+    run_forwarded_param_domains(res, idx)
     # vmap of lax.while_loop: the batched predicate is carried through the Loop and every body output is masked with Where so
     # that finished examples keep their state.  The next predicate must be evaluated on the MASKED state (C06 R-C06f): on
     # the raw body outputs a finished example is judged on body(final_state) and can be revived.
